@@ -60,6 +60,7 @@ class Block:
         self.orsplit = False
         self.blockarms = False
         self.qmark = False
+        self.awaitcall = False
         self.unless = {}
         self.loop_optional = set()
         self.spec = []            # list of (text, tline)
@@ -151,6 +152,8 @@ def parse_template(path):
             cur.blockarms = True
         elif word == 'qmark':
             cur.qmark = True
+        elif word == 'awaitcall':
+            cur.awaitcall = True
         elif word == 'spec':
             section = cur.spec
         elif word == 'loop':
@@ -265,7 +268,12 @@ def extract_fn(repo, blk, meta, mode):
                 n2 = X._next_sig(toks, n1)
                 if toks[n2].kind == 'punct' and toks[n2].text == '=':
                     e = n2
-                    while not (toks[e].kind == 'punct' and toks[e].text == ';'):
+                    dd = 0
+                    while not (dd == 0 and toks[e].kind == 'punct' and toks[e].text == ';'):
+                        if toks[e].kind == 'punct' and toks[e].text in '([{':
+                            dd += 1
+                        elif toks[e].kind == 'punct' and toks[e].text in ')]}':
+                            dd -= 1
                         e += 1
                     assoc.append(('Self::' + toks[n1].text, text(toks[n2 + 1:e]).strip()))
                     k = e
@@ -282,7 +290,7 @@ def extract_fn(repo, blk, meta, mode):
     item = X.drop_cfg_features(item, log)
     item = X.drop_attrs(item, log)
     item = X.drop_vis(item, log)
-    item = X.erase_async(item, log)
+    item = X.erase_async(item, log, awaitcall=blk.awaitcall)
     item = X.closure_underscore(item, log)
     item = X.desugar_iter_mut(item, log)
     item = X.desugar_range_inclusive(item, log)
